@@ -15,6 +15,7 @@
 import YashModel.Exec.Escape
 import YashModel.Exec.Refine
 import YashModel.Exec.FuelMono
+import YashModel.Exec.SearchCompose
 namespace YashModel.Exec
 
 /-! ### ★ stack_balanced: every push has its pop on every path -/
@@ -317,6 +318,36 @@ theorem async_list_isolated (fuel : Nat) (s : St) (body : List Item)
   obtain ⟨c1, r⟩ := x
   cases r <;> simp_all [St.applyErrexit]
 
+/-- a subshell `( … )` contains everything its body does but the output, the status and the signals it
+    sent: no `break`/`continue`/`return`/`exit` leaves it (the only divert of the command itself is the
+    parent's own errexit), and options, parameters, functions and counters of the shell are untouched -/
+theorem subshell_contains (fuel : Nat) (s : St) (body : List Item) :
+    ((execCmd (fuel+1) s (.subshell body)).2 = .continue_ ∨
+     (execCmd (fuel+1) s (.subshell body)).2 = .break_ (.exit none) ∨
+     (execCmd (fuel+1) s (.subshell body)).2 = .outOfFuel) ∧
+    (∃ st tr pe, (execCmd (fuel+1) s (.subshell body)).1 = { s with status := st, trace := tr, pending := pe }) := by
+  simp only [execCmd]
+  generalize execList fuel (s.push .subshell) body = x
+  obtain ⟨c1, r⟩ := x
+  cases r with
+  | outOfFuel => exact ⟨Or.inr (Or.inr rfl), s.status, s.trace, s.pending, rfl⟩
+  | continue_ =>
+    refine ⟨?_, _, _, _, rfl⟩
+    simp only [St.applyErrexit]; split <;> simp
+  | break_ d =>
+    refine ⟨?_, _, _, _, rfl⟩
+    simp only [St.applyErrexit]; split <;> simp
+
+/-- not vacuous: `( set -e; f0() { :; }; break 2; probe 1 )` inside a loop, then `( exit 3 )` -/
+example :
+    let s : St := { stack := [.loop] }
+    let body : List Item := [.mk (.mk false [.setE true]) [], .mk (.mk false [.fundef (.f 0) (.group [])]) [],
+      .mk (.mk false [.brk 2]) [], .mk (.mk false [.probe 1]) []]
+    (execCmd 9 s (.subshell body)).2 = .continue_ ∧ (execCmd 9 s (.subshell body)).1.status = 1 ∧
+    (execCmd 9 s (.subshell body)).1.errexit = false ∧ (execCmd 9 s (.subshell body)).1.funcs.length = 0 ∧
+    (execCmd 9 s (.subshell [.mk (.mk false [.exit (some 3)]) []])).1.status = 3 := by
+  decide
+
 /-- `for v do …` iterates once per positional parameter of the current context: it is the loop over
     that many words -/
 theorem for_pos_is_for_params (fuel : Nat) (s : St) (body : List Item) :
@@ -365,6 +396,136 @@ theorem search_order_path (s : St) (body : Cmd) :
   · simp [classify, defineFn, lookupFn]
   · simp [classify, defineFn, lookupFn]
 
+/-! ### ☆ the command search (extension round): yash-env/src/semantics/command/search.rs inside the model
+
+`Search.runSimple` transcribes what `SimpleCommand::execute` does with a command name (`classify`, then
+`resolve_builtin` / `search_path` at the place of use); `Search.SpecRuns` is POSIX XCU 2.9.1.4 as a
+relation with one rule per item of the text. -/
+
+open Search in
+/-- every simple command is dispatched as XCU 2.9.1.4 prescribes — for every table of built-ins, set of
+    functions, `$PATH` value (unset, scalar, array), file system and option setting -/
+theorem search_meets_posix (env : Search.Env) (name : Search.Str) :
+    SpecRuns env name (runSimple env name) := by
+  rw [← specRun_eq_runSimple]; exact specRuns_specRun env name
+
+open Search in
+/-- …and the rules leave no choice: whatever satisfies them is what the code does (so the eight rules
+    are exhaustive and mutually exclusive) -/
+theorem search_posix_unique (env : Search.Env) (name : Search.Str) (o : Outcome)
+    (h : SpecRuns env name o) : o = runSimple env name := by
+  rw [← specRun_eq_runSimple]; exact specRuns_unique env name o h
+
+open Search in
+/-- the order of the search in plain words: a name with a slash never looks at built-ins or functions;
+    a special built-in hides a function of its name; a function hides every other built-in and `$PATH` -/
+theorem search_order_general (env : Search.Env) (name : Search.Str) :
+    ('/' ∈ name → runSimple env name = .exec name) ∧
+    ('/' ∉ name → visible env name = some .special → rejected env name .special = false →
+      runSimple env name = .builtin .special []) ∧
+    ('/' ∉ name → visible env name ≠ some .special → name ∈ env.functions →
+      runSimple env name = .function) := by
+  refine ⟨fun h => ?_, fun h hv hr => ?_, fun h hv hf => ?_⟩
+  · exact (search_posix_unique env name _ (.slash h)).symm
+  · exact (search_posix_unique env name _ (.special h hv hr)).symm
+  · exact (search_posix_unique env name _ (.function h hv hf)).symm
+
+open Search in
+/-- `search_path` returns `dir/name` for the first entry `dir` of `$PATH` under which `name` is an
+    executable file, and nothing iff there is no such entry -/
+theorem search_path_first_hit (env : Search.Env) (name : Search.Str) :
+    (∀ p, searchPath env name = some p ↔ FirstHit env name p) ∧
+    (searchPath env name = none ↔ NoHit env name) := by
+  rw [searchPath_eq_firstHitIn]
+  exact ⟨fun p => (firstHit_iff env name p).symm, (noHit_iff env name).symm⟩
+
+open Search in
+/-- a scalar `$PATH` is cut exactly at its colons: the entries joined by `:` give the value back, no
+    entry contains a colon, and there is always at least one entry (the empty value is one empty entry,
+    i.e. the working directory) -/
+theorem path_split_colons (v : Search.Str) :
+    [':'].intercalate (PathVal.scalar v).split = v ∧
+    (∀ d ∈ (PathVal.scalar v).split, ':' ∉ d) ∧ (PathVal.scalar v).split ≠ [] :=
+  ⟨splitOn_join ':' v, splitOn_no_sep ':' v, splitOn_ne_nil ':' v⟩
+
+open Search in
+/-- the one-call `search` and the dispatch of `SimpleCommand::execute` (which calls `classify`,
+    `resolve_builtin` and `search_path` at three different places) agree: same target, same path, and a
+    failed search is exactly a command that does not run, with the status of `Error::exit_status` -/
+theorem search_agrees_with_dispatch (env : Search.Env) (name : Search.Str) :
+    match search env name with
+    | .ok (.builtin t _ p) => runSimple env name = .builtin t p
+    | .ok .function => runSimple env name = .function
+    | .ok (.external p) => runSimple env name = .exec p
+    | .error e => runSimple env name = .status e.exitStatus := by
+  unfold Search.search Search.runSimple
+  cases hc : Search.classify env name with
+  | function => simp
+  | builtin t a p0 =>
+    simp only
+    cases hr : resolveBuiltin env name t a <;> simp [Error.exitStatus]
+  | external p0 =>
+    simp only
+    by_cases hs : '/' ∈ name
+    · simp [hs]
+    · cases hp : searchPath env name <;> simp [hs, Error.exitStatus]
+
+/-- composition: the name classes of the executor model (`classify`, used by `execCmd` for `.call`) are
+    the transcribed search run in the environment the harness installs — what runs is the function
+    body found by `lookupFn`, or nothing but the status the search dictates (the constants 126/127 of
+    the model are `ExitStatus::NOEXEC`/`NOT_FOUND` as extracted from the code) -/
+theorem classify_is_search (s : St) (n : Name) :
+    (classify s n).effect =
+      outcomeEffect s.funcs n (Search.runSimple (harnessEnv s.funcs) (nameStr n)) :=
+  classify_is_search_effect s n
+
+/-- not vacuous: in `PATH=/nonexistent::/bin` with `/bin/ls` and `./ls` executable, `ls` is found in the
+    working directory (the empty entry) before `/bin`; a function `ls` hides both; a substitutive
+    built-in `ls` runs with that path; without the files it is "not found" although the built-in exists -/
+example :
+    let ls := ['l', 's']
+    let env : Search.Env := {
+      path := .scalar "/nonexistent::/bin".toList, execs := ["/bin/ls".toList, "/ls".toList] }
+    Search.runSimple env ls = .exec ls ∧
+    Search.runSimple { env with functions := [ls] } ls = .function ∧
+    Search.runSimple { env with builtins := [(ls, .substitutive)] } ls = .builtin .substitutive ls ∧
+    Search.runSimple { env with builtins := [(ls, .substitutive)], execs := [] } ls = .status 127 ∧
+    Search.runSimple { env with builtins := [(ls, .special)], functions := [ls] } ls = .builtin .special [] ∧
+    Search.runSimple { env with builtins := [(ls, .extension)], posix := true } ls = .exec ls ∧
+    Search.runSimple { env with builtins := [(ls, .elective)], portable := true } ls = .status 126 := by
+  decide
+
+/-! ### the tables of the code (re-extracted into `Generated/ExecTables.lean` on every run) -/
+
+/-- the variant's name in yash-env/src/stack.rs -/
+def Frame.rustName : Frame → String
+  | .loop => "Loop" | .subshell => "Subshell" | .condition => "Condition" | .builtin _ => "Builtin"
+  | .dotScript => "DotScript" | .trap => "Trap" | .initFile => "InitFile"
+
+/-- `Frame.retainsContext` is the `retains_context` match of `Stack::loop_count` as it stands in the
+    code, and the model's frames are all the variants of `enum Frame` -/
+theorem retainsContext_table :
+    (∀ f : Frame, Generated.ExecTables.retainsContext.lookup f.rustName = some f.retainsContext) ∧
+    Generated.ExecTables.frameVariants =
+      [Frame.loop, .subshell, .condition, .builtin true, .dotScript, .trap, .initFile].map Frame.rustName := by
+  refine ⟨fun f => ?_, by decide⟩
+  cases f with
+  | builtin b => cases b <;> decide
+  | _ => decide
+
+open Search in
+/-- the exit statuses of a failed search are those of `Unusable::exit_status` / `Error::exit_status`, the
+    built-in types are the variants of `enum Type`, in the code as it stands -/
+theorem search_tables :
+    (∀ u : Unusable, (Generated.ExecTables.unusableStatus.lookup u.rustName).bind
+        (Generated.ExecTables.exitStatusByName.lookup ·) = some u.exitStatus) ∧
+    Generated.ExecTables.exitStatusByName.lookup Generated.ExecTables.errorNotFoundStatus =
+      some Error.notFound.exitStatus ∧
+    BType.all.map BType.rustName = Generated.ExecTables.builtinTypes ∧
+    Generated.ExecTables.availabilityVariants = ["Available", "NotPortable"] := by
+  refine ⟨fun u => ?_, by decide, by decide, by decide⟩
+  cases u <;> decide
+
 /-! ### ☆ exec_refines_spec: the frame-stack implementation refines the context semantics -/
 
 /-- Every command, in every state and with every fuel, behaves under the implementation's frame stack
@@ -389,6 +550,100 @@ theorem shell_refines_spec (fuel : Nat) (script : List Line) :
   obtain ⟨⟨st, h⟩, hr⟩ := ref_shell fuel {} script rfl
   rw [h]
   exact ⟨rfl, rfl, hr⟩
+
+/-- …and so is everything the shell is left with (the final state the c02 driver prints and the harness
+    reads from the real `Env`): option flags, positional parameters, function table, read-only set,
+    counters, traps — the Spec's final state is the implementation's, but for the frame stack the Spec
+    does not have -/
+theorem shell_refines_spec_state (fuel : Nat) (script : List Line) :
+    ∃ st, (specShell fuel {} script).1 = { (runShell fuel {} script).1 with stack := st } :=
+  (ref_shell fuel {} script rfl).1
+
+/-- a whole shell run leaves the frame stack as it found it: after the last command and the EXIT trap
+    nothing is left on it (`stk=` is empty in every observation) -/
+theorem stack_balanced_shell (fuel : Nat) (s : St) (script : List Line) :
+    (runShell fuel s script).1.stack = s.stack := by
+  unfold runShell
+  have h1 := stack_balanced_script fuel s script
+  generalize runScript fuel s script = x at h1
+  obtain ⟨s1, r⟩ := x
+  simp only at h1
+  have h2 : (runExitTrap fuel s1).1.stack = s1.stack := by
+    unfold runExitTrap
+    cases s1.exitTrap with
+    | none => rfl
+    | some body =>
+      simp only
+      have hb := (bal fuel).list (s1.push .trap) body
+      generalize execList fuel (s1.push .trap) body = y at hb
+      obtain ⟨s2, r2⟩ := y
+      simp only at hb
+      have hp : s2.stack.tail = s1.stack := by simp [hb, St.push]
+      have key : ∀ (t : St) (r : Res), (t.applyResult r).stack = t.stack := by
+        intro t r
+        cases r with
+        | break_ d => simp only [St.applyResult]; split <;> rfl
+        | _ => rfl
+      cases r2 with
+      | continue_ => simp [key, St.pop, hp]
+      | outOfFuel => simp [St.pop, hp]
+      | break_ d =>
+        cases d with
+        | interrupt x => cases x <;> simp [key, St.pop, hp]
+        | _ => simp [key, St.pop, hp]
+  simp only
+  generalize runExitTrap fuel s1 = z at h2 ⊢
+  obtain ⟨s2, r2⟩ := z
+  simp only at h2
+  cases r with
+  | outOfFuel => exact h1
+  | continue_ => cases r2 <;> exact h2.trans h1
+  | break_ d =>
+    cases d with
+    | abort x => exact h1
+    | _ => cases r2 <;> exact h2.trans h1
+
+/-! ### ☆ sequential lists compose -/
+
+/-- `l1; l2` is `l1`, then — iff `l1` ended normally — `l2` in the state `l1` left, with the fuel `l1`'s
+    items did not use; a divert (or fuel exhaustion) inside `l1` ends the whole list with that result and
+    nothing of `l2` runs.  For every state, every pair of lists and every fuel that covers `l1`'s length. -/
+theorem list_sequential (l1 l2 : List Item) : ∀ (fuel : Nat) (s : St), l1.length ≤ fuel →
+    execList fuel s (l1 ++ l2) =
+      match execList fuel s l1 with
+      | (s1, .continue_) => execList (fuel - l1.length) s1 l2
+      | x => x := by
+  induction l1 with
+  | nil =>
+    intro fuel s _
+    cases fuel with
+    | zero => simp [execList]
+    | succ n => simp [execList]
+  | cons it rest ih =>
+    intro fuel s hle
+    cases fuel with
+    | zero => simp at hle
+    | succ n =>
+      simp only [List.cons_append, execList, List.length_cons]
+      generalize execItem n s it = x
+      obtain ⟨s1, r⟩ := x
+      cases r with
+      | continue_ =>
+        simp only
+        rw [ih n s1 (by simp at hle; omega)]
+        have : n + 1 - (rest.length + 1) = n - rest.length := by omega
+        rw [this]
+      | break_ d => simp
+      | outOfFuel => simp
+
+/-- not vacuous: `probe 1; st 3` then `probe 2; exit 4; probe 3` -/
+example :
+    let l1 : List Item := [.mk (.mk false [.probe 1]) [], .mk (.mk false [.st 3]) []]
+    let l2 : List Item := [.mk (.mk false [.probe 2]) [], .mk (.mk false [.exit (some 4)]) [], .mk (.mk false [.probe 3]) []]
+    (execList 9 {} l1).2 = .continue_ ∧ (execList 9 {} (l1 ++ l2)).2 = .break_ (.exit (some 4)) ∧
+    (execList 9 {} (l1 ++ l2)).1.trace = [(2, 3), (1, 0)] ∧
+    (execList 9 {} (l2 ++ l1)).1.trace = [(2, 0)] := by
+  decide
 
 /-! ### ☆ pipeline_status: the exit status of a multi-command pipeline
 
@@ -552,6 +807,53 @@ example :
     let s : St := {}
     (execList 5 ((s.push .loop).push .condition) [.mk (.mk false [.st 1]) []]).2 = .continue_ ∧
     (execCmd 7 s (.whileLoop false [.mk (.mk false [.st 1]) []] [.mk (.mk false [.probe 1]) []])).1.status = 0 := by
+  decide
+
+/-- `st 1 && probe 1 || probe 2`: with `$? = 1` the `&&` side is skipped (hypotheses of `andor_skips`) and
+    the `||` side runs -/
+example :
+    let s : St := { status := 1, stack := [.condition] }
+    let p : Bool × Pipeline := (true, .mk false [.probe 1])
+    let q : Bool × Pipeline := (false, .mk false [.probe 2])
+    ((s.status = 0) ≠ p.1) ∧ (execAndOrRest 9 s [p, q]).1.trace = [(2, 1)] := by
+  decide
+
+/-- `if st 3; then probe 1; fi` (hypotheses of `if_none_taken_zero`): the condition ends normally with a
+    non-zero status, nothing runs, `$?` is 0 -/
+example :
+    let s : St := {}
+    let cond : List Item := [.mk (.mk false [.st 3]) []]
+    (execList 6 (s.push .condition) cond).2 = .continue_ ∧ (execList 6 (s.push .condition) cond).1.status ≠ 0 ∧
+    (execCmd 7 s (.ifc cond [.mk (.mk false [.probe 1]) []] [] none)).1.status = 0 ∧
+    (execCmd 7 s (.ifc cond [.mk (.mk false [.probe 1]) []] [] none)).1.trace = [] := by
+  decide
+
+/-- `case x in y) probe 1;; z) probe 2;; esac` after `st 5` (hypotheses of `case_no_match_zero`) -/
+example :
+    let items : List (Bool × Bool × List Item × CaseCont) :=
+      [(false, false, [.mk (.mk false [.probe 1]) []], .break_), (false, false, [.mk (.mk false [.probe 2]) []], .break_)]
+    (items.all fun it => !it.1 && !it.2.1) = true ∧ items.length < 5 ∧
+    (execCmd 6 { status := 5 } (.caseC items)).1.status = 0 ∧ (execCmd 6 { status := 5 } (.caseC items)).1.trace = [] ∧
+    (execCmd 6 { status := 5 } (.caseC items)).2 = .continue_ := by
+  decide
+
+/-- `{ probe 1; exit 3; probe 2; } & wait` under errexit (hypothesis of `async_list_isolated`): the list
+    terminates in its subshell; the shell goes on with status 0 and sees the one probe -/
+example :
+    let s : St := { errexit := true, status := 4 }
+    let body : List Item := [.mk (.mk false [.probe 1]) [], .mk (.mk false [.exit (some 3)]) [], .mk (.mk false [.probe 2]) []]
+    (execList 8 (s.push .subshell) body).2 ≠ .outOfFuel ∧
+    (execCmd 9 s (.asyncWait body)).2 = .continue_ ∧ (execCmd 9 s (.asyncWait body)).1.status = 0 ∧
+    (execCmd 9 s (.asyncWait body)).1.trace = [(1, 4)] := by
+  decide
+
+/-- `exit 3 | st 0 | unknown` under job control (hypothesis of `pipeline_status`): the run terminates, and
+    the status is that of the last command without pipefail, of the rightmost failure with it -/
+example :
+    let s : St := { monitor := true }
+    (execCommands 6 s [.exit (some 3), .st 0, .unknown]).2 ≠ .outOfFuel ∧
+    (execCommands 6 s [.exit (some 3), .st 0, .unknown]).1.status = 127 ∧
+    (execCommands 6 { s with pipefail := true } [.exit (some 3), .st 0, .st 0]).1.status = 3 := by
   decide
 
 /-- a function body that returns 7: `f0() { probe 1; return 7; probe 2; }; f0` -/
